@@ -205,6 +205,10 @@ async def run_e2e(job):
         return res
     slave = M.slaves_devices.get(name)
 
+    # listen sessions the device dropped: [virtual ms, undelivered events lost, did the master report the slave online then]
+    res['session_expiries'] = []
+    sim.expire_hook = lambda sid, n: res['session_expiries'].append([vloop.vtime_ms(), n, bool(slave.is_online())])
+
     # the order in which the master consumes what the device reports: every event when Slave.handle_event receives it (the
     # answers to the master's own GET requests are logged by the simulated device when they arrive)
     orig_handle_event = slave.handle_event
